@@ -134,6 +134,13 @@ theorem written_tree_reads_back (F : FloatOps) (L : C10.FloatLaws F) (n : Writer
   ⟨n.enc, (writer_refines_layout n buf).1, parse_exact F L n.enc (Writer.Node.valid n hn) q,
     (probe_exact n.enc (Writer.Node.valid n hn) q).2⟩
 
+/-- the same without any hypothesis about the platform's float conversions: for the bit-level IEEE
+model the drivers run (laws proved in Lemmas/IEEE.lean) -/
+theorem written_tree_reads_back_ieee (n : Writer.Node) (hn : n.OK) (buf q : Bytes) :
+    ∃ b, (Writer.run (Writer.compRoot n) buf).1.built = some b ∧
+      parseValue IEEE.ieee (2 * (q ++ b).length + 2) (q ++ b) = .ok b.length ∧ openValue (q ++ b) = .ok b :=
+  written_tree_reads_back IEEE.ieee C10.ieee_laws n hn buf q
+
 /-! ### non-vacuity: boundary instances on both sides of the table forms -/
 
 /-- a concrete nested program: message { 2: [true, {}], 1: 7 } written with tag 2 before tag 1 -/
